@@ -4,7 +4,10 @@
 //
 //	live    one raft.RawNode + raft.MemoryStorage + the application state raftexample keeps
 //	        next to them; feed() is the only place the library is called: one input, then the
-//	        complete handling of the Ready structs it produces (persist, send, apply, Advance)
+//	        complete handling of the Ready structs it produces (persist, send, apply, Advance) -
+//	        except in the two lag modes: apply lag (a Ready is persisted and sent, its committed
+//	        page and Advance are held) and persist lag (the whole Ready is held), where later
+//	        inputs call the library without a Ready cycle until apply(n) / persist(n)
 //	node    immutable observation of a member after an input history (what the invariants and
 //	        the state key read)
 //	sim     owns the live objects; memoises node-level transitions per input history and
@@ -643,8 +646,9 @@ func (n *live) confChange(v uint16) pb.ConfChangeI {
 }
 
 // feed applies one input to the node: one call into the library plus the complete handling
-// of the Ready structs it produces - unless the node holds a Ready (apply lag): then the
-// library is called and nothing else happens until apply / unlag.
+// of the Ready structs it produces - unless the node holds a Ready (apply lag: persisted and
+// sent, not applied; persist lag: nothing of it done yet): then the library is called and
+// nothing else happens until apply / unlag / persist.
 func (n *live) feed(in *input) (eff effects) {
 	defer catch(&eff)
 	switch in.k {
